@@ -36,7 +36,7 @@ EXPECT = {"duplicate_node": {"SCHEMA_DUPLICATE_NODE", "SCHEMA_LIBRARY_INVALID"},
           "unit_class_missing": {"SCHEMA_ATTRIBUTE_VALUE_INVALID"}, "value_class_missing": {"SCHEMA_ATTRIBUTE_VALUE_INVALID"},
           "suggested_tag_missing": {"SCHEMA_ATTRIBUTE_VALUE_INVALID"},
           "related_tag_missing": {"SCHEMA_ATTRIBUTE_VALUE_INVALID"},
-          "class_on_non_placeholder": {"SCHEMA_ATTRIBUTE_INVALID"}, "deprecated_from_bad": {"SCHEMA_DEPRECATION_ERROR"},
+          "class_on_non_placeholder": {"SCHEMA_ATTRIBUTE_INVALID", "SCHEMA_ATTRIBUTE_VALUE_INVALID"}, "deprecated_from_bad": {"SCHEMA_DEPRECATION_ERROR"},
           "conversion_factor_bad": {"SCHEMA_ATTRIBUTE_VALUE_INVALID"},
           "default_units_bad": {"SCHEMA_ATTRIBUTE_VALUE_INVALID"},
           "allowed_character_bad": {"SCHEMA_ATTRIBUTE_VALUE_INVALID"},
